@@ -18,9 +18,9 @@ Local Open Scope N_scope.
 
 (* The Section variables of the generated file are instantiated by position below; these lines pin
    their names, so a change of callee cannot go unnoticed. *)
-Arguments Uploader_upload StorageClient DataProvider log_Logger context_Context error_T os_File
-  progress_CountingReader DataProvider_LastIndex tempFD os_File_Name DataProvider_Provide os_File_Seek
-  progress_NewCountingReader time_Now strconv_FormatUint StorageClient_Upload StorageClient_CurrentID _ _ : assert.
+Arguments Uploader_upload DataProvider StorageClient context_Context error_T log_Logger os_File
+  progress_CountingReader DataProvider_LastIndex DataProvider_Provide StorageClient_CurrentID StorageClient_Upload
+  os_File_Name os_File_Seek progress_NewCountingReader strconv_FormatUint tempFD time_Now _ _ : assert.
 
 (* what is compared of a call *)
 Inductive kind := KLast | KProvide | KCurID | KUpload (label : string).
@@ -47,18 +47,15 @@ Section Upload.
   Definition fail (b : bool) : option unit := if b then Some tt else None.
   Definition rep (w : world) : Uploader unit unit unit := mk_Uploader unit unit unit tt tt 0%Z None 0%Z 0%Z (Z.of_N (w_last w)).
 
-  (* StorageClient DataProvider log_Logger context_Context error_T os_File progress_CountingReader := unit *)
+  (* all opaque types := unit *)
   Definition gen_upload (w : world) (e : env) : Uploader unit unit unit * option unit * list (effect unit unit unit) :=
     Uploader_upload unit unit unit unit unit unit unit
-      (fun _ => (Z.of_N (last_index (w_db w)), fail (e_li_err e)))
-      (Some tt, None)
-      (fun _ => EmptyString)
-      (fun _ _ => fail (e_prov_err e))
-      (fun _ _ _ => (0%Z, None))
-      (fun _ => tt)
-      now fmt
-      (fun _ _ _ _ => fail (e_up_fail e))
-      (fun _ _ => (match w_rid w with Some r => fmt (Z.of_N r) 10 | None => nonum end, fail (e_id_err e)))
+      (fun _ => (Z.of_N (last_index (w_db w)), fail (e_li_err e)))                                             (* LastIndex *)
+      (fun _ _ => fail (e_prov_err e))                                                                         (* Provide *)
+      (fun _ _ => (match w_rid w with Some r => fmt (Z.of_N r) 10 | None => nonum end, fail (e_id_err e)))     (* CurrentID *)
+      (fun _ _ _ _ => fail (e_up_fail e))                                                                      (* Upload *)
+      (fun _ => EmptyString) (fun _ _ _ => (0%Z, None)) (fun _ => tt)                                           (* fd.Name, fd.Seek, NewCountingReader *)
+      fmt (Some tt, None) now                                                                                  (* FormatUint, tempFD, time.Now *)
       (rep w) tt.
 
   Lemma id_eqb : forall o li,
